@@ -62,21 +62,21 @@ type edit struct {
 }
 
 type fileCtx struct {
-	fset   *token.FileSet
-	file   *ast.File
-	tf     *token.File
-	info   *types.Info
-	rel    string
-	edits  []edit
-	seq    int
-	rep    *Report
-	src    []byte
-	pkgUse map[string][2]int // import local name -> [total uses, rewritten uses]
-	isMain bool
-	hasMain bool
+	fset             *token.FileSet
+	file             *ast.File
+	tf               *token.File
+	info             *types.Info
+	rel              string
+	edits            []edit
+	seq              int
+	rep              *Report
+	src              []byte
+	pkgUse           map[string][2]int // import local name -> [total uses, rewritten uses]
+	isMain           bool
+	hasMain          bool
 	handledChanTypes map[*ast.ChanType]bool
-	needSimrt bool
-	skip [][2]token.Pos // source ranges already replaced as a whole (select comm clauses)
+	needSimrt        bool
+	skip             [][2]token.Pos // source ranges already replaced as a whole (select comm clauses)
 }
 
 // GoCmd is the go command used for `go list` (must be the toolchain the
@@ -474,6 +474,7 @@ func (fc *fileCtx) walk(root ast.Node, depth int) {
 var osFuncs = map[string]string{
 	"Open": "Open", "Create": "Create", "OpenFile": "OpenFile", "ReadFile": "ReadFile",
 	"WriteFile": "WriteFile", "Exit": "Exit", "Stat": "Stat", "File": "File",
+	"CreateTemp": "CreateTemp", "Rename": "Rename", "Remove": "Remove", "TempDir": "TempDir",
 }
 
 var syncTypes = map[string]string{
@@ -585,6 +586,17 @@ func (fc *fileCtx) visit(n ast.Node, parent ast.Node, d int) {
 					fc.markRewritten(local)
 					fc.count("os." + n.Sel.Name)
 				}
+			}
+		case "io":
+			switch n.Sel.Name {
+			case "Pipe", "PipeReader", "PipeWriter":
+				fc.replace(n.Pos(), n.End(), "simrt."+n.Sel.Name, d, false)
+				fc.markRewritten(local)
+				fc.count("io." + n.Sel.Name)
+			}
+		case "net":
+			if n.Sel.Name == "Pipe" || n.Sel.Name == "Dial" || n.Sel.Name == "Listen" {
+				fc.unsupported(n.Pos(), "net."+n.Sel.Name)
 			}
 		case "sync":
 			if r, ok := syncTypes[n.Sel.Name]; ok {
@@ -748,7 +760,7 @@ func (fc *fileCtx) simpleExpr(e ast.Expr) bool {
 		case *ast.SelectorExpr:
 			if path, _, isPkg := fc.pkgOf(n.X); isPkg {
 				switch path {
-				case "os", "sync", "time", "runtime", "maps", "context", "golang.org/x/sync/errgroup":
+				case "os", "sync", "time", "runtime", "maps", "context", "io", "golang.org/x/sync/errgroup":
 					ok = false
 				}
 			}
